@@ -205,7 +205,7 @@ FUNCS = {
     "saturating_mul16": ("satmul16", ref_sdhm16, lambda a, b: in16(a) and in16(b),
                          [("int", "int"), ("int32", "int32"), ("int16", "int32"), ("int64", "int32")]),
     "shift_left32": ("shl32", lambda a, o: ref_shl(a, o, 32), lambda a, o: in32(a) and 0 <= o <= 30,
-                     [("int", "int")]),
+                     [("int", "int"), ("int32", "int")]),   # saturating_rounding_multiply_by_pot passes np.int32
     "shift_left16": ("shl16", lambda a, o: ref_shl(a, o, 16), lambda a, o: in16(a) and 0 <= o <= 30,
                      [("int", "int"), ("int16", "int"), ("int32", "int")]),
     "downscale_multiplier_int32_to_int16": ("downscale", ref_downscale, lambda a: in32(a), [("int",)]),
@@ -224,7 +224,7 @@ FUNCS = {
 # further NumPy types exercised for the record (not passed by a call site of the unchanged tree): informational only
 EXTRA_TYPES = {
     "saturating_rounding_mul32": [("int8", "int"), ("int16", "int")],
-    "shift_left32": [("int32", "int"), ("int64", "int")],
+    "shift_left32": [("int64", "int")],
     "shift_left16": [("int64", "int")],
     "rounding_divide_by_pot": [("int16", "int"), ("int8", "int")],
     "multiply_by_quantized_multiplier": [("int8", "int", "int"), ("int16", "int", "int"), ("int32", "int", "int")],
@@ -237,6 +237,9 @@ EXTRA_TYPES = {
 CALLSITE_DOM = {
     # convert_hardswish_to_lut: shift_left16(<np.int32 result of saturating_rounding_mul16>, 1)
     ("shift_left16", ("int32", "int")): lambda a, o: o == 1,
+    # saturating_rounding_multiply_by_pot: shift_left32(<np.int32 x>, exponent) only after its own threshold tests,
+    # i.e. only when the product fits
+    ("shift_left32", ("int32", "int")): lambda a, o: in32(a * (1 << o)),
 }
 
 
@@ -439,7 +442,8 @@ def check_fpmath(tier, rng, okx):
                     if not same:
                         out["corr"].setdefault((name, "malformed"), {"function": name, "args": list(args), "model": mo, "impl": list(r)})
         if name == "shift_left16" and okx:
-            # the NumPy-2 model behind theorem shift_left16_np_int16_refuted must be the real behaviour on np.int16 operands
+            # the model behind theorem shift_left16_np_int16_eq (code as it is now: int(a) * (1 << offset)) must be the real
+            # behaviour on np.int16 operands; if the int16 wrap returns this breaks together with the oracle above
             npc = [c for c in cases if in16(c[0])]
             for args, mo in zip(npc, prun("shl16np", [list(c) for c in npc])):
                 r = call_impl(fn, args, ("int16", "int"))
@@ -814,7 +818,10 @@ def start_certificates(tier, rng):
     os.makedirs(CERT_DIR, exist_ok=True)
     params = [("sigmoid", "int8", 0.047, -3, 1 / 256, -128), ("tanh", "int8", 0.02, 5, 1 / 128, 0),
               ("sigmoid", "uint8", 0.1, 128, 1 / 256, 0), ("tanh", "uint8", 0.05, 120, 1 / 128, 128)]
-    extra = {"quick": 2, "thorough": 196}[tier]
+    if tier == "thorough":
+        # corpus: clamp_sigmoid's cut-off at |x| >= 8 flips the rounding of codes 55.. when the output scale is not 1/256
+        params.append(("sigmoid", "int8", 0.12572947144508362, -9, 0.013983922079205513, -50))
+    extra = {"quick": 2, "thorough": 195}[tier]
     for _ in range(extra):
         fname = rng.choice(["sigmoid", "tanh"])
         dtn = rng.choice(["int8", "int8", "uint8"])
@@ -840,6 +847,7 @@ def start_certificates(tier, rng):
         table = [int(v) for v in r[1].activation_lut.values]
         fsi, fso = Fraction(float(f32(si))), Fraction(float(f32(so)))
         job["table"] = table
+        job["qrange"] = (qmin, qmax)
         job["precheck"] = float_precheck(fname, fsi, zi, fso, zo, qmin, qmax, table)
         job["chunks"] = []
         spans = [(lo, min(len(table), lo + CHUNK), False) for lo in range(0, len(table), CHUNK)]
@@ -943,7 +951,16 @@ def run(tier):
             x, v, tgt = j["precheck"][0]
             if j["key"]["table"] == "sigmoid":
                 # do all failing codes lie where clamp_sigmoid replaces the function by 0 / 1 (|x_real| >= 8)?
-                key["only_beyond_cutoff_8"] = all(abs(j["key"]["ifm_scale"] * (c - j["key"]["zp_in"])) >= 8 for c, _, _ in j["precheck"])
+                # and is the entry exactly what rounding the cut-off value (0.0 / 1.0) gives?  Then the failure is the known
+                # clamp_sigmoid cut-off effect and nothing else.
+                qlo, qhi = j["qrange"]
+
+                def cut_value(c):
+                    y = 1.0 if c - j["key"]["zp_in"] > 0 else 0.0
+                    f = j["key"]["zp_out"] + y / j["key"]["ofm_scale"]
+                    return min(qhi, max(qlo, int(math.floor(abs(f) + 0.5)) * (1 if f >= 0 else -1)))
+                key["only_beyond_cutoff_8"] = all(abs(j["key"]["ifm_scale"] * (c - j["key"]["zp_in"])) >= 8 and tv == cut_value(c)
+                                                  for c, tv, _ in j["precheck"])
             raised += bool(res.violation(key, {"code": x, "table_value": v, "real_value": tgt, "n_entries_failing": len(j["precheck"]),
                                                "certificate": j.get("file"), "coqc": j.get("log", "")[-600:]},
                                          "%s table entry for code %d is %d but f(dequant)/s_out+zp = %.6f: not the rounded and saturated value" % (
